@@ -295,3 +295,161 @@ Proof.
   cbv zeta. repeat split; try (left; reflexivity); try lia; try (repeat constructor; discriminate);
     try (vm_compute; reflexivity); try (vm_compute; discriminate).
 Qed.
+
+(* ==== GenAgree (measures): what matrix/measure.py, stripe/measure.py, cubepart.py SAY NOW ==== *)
+(* Gen/MeasureSrc.v, Gen/StripeMeasureSrc.v, Gen/PartMeasureSrc.v are REWRITTEN FROM THE SOURCE on every
+   check by harness/translate/measures.py (an `ast` whitelist, fail-closed): one [option mexp] per
+   (class, member) -- per block for a `blocks` member -- read through the wiring of the collection class.
+   The theorems below say that what the source SAYS NOW ([meval] / the signed-square reading [meval_sq] of
+   the translated term, Base/MeasureExp.v), for ALL input blocks, sizes and subtotal lists, IS the
+   definition of Model.Population the theorems above are about -- tagged shape and every in-range cell.
+   [None] on the left = the translator could not read the member (then only the correspondence ties it).
+   A change of meaning in the source breaks these obligations (Proofs/GenAgreePopulation.v fails). *)
+From Coq Require String.
+From CC Require Base.MeasureExp Model.Subtotals Model.Proportions Gen.MeasureSrc Gen.StripeMeasureSrc Gen.PartMeasureSrc Gen.Tables
+     Proofs.GenAgreeMeasTac Proofs.GenAgreePopulation.
+Section GenAgreeMeasures_C17.   (* scopes and imports below end with the section *)
+Import Coq.Strings.String CC.Base.MeasureExp CC.Model.Subtotals CC.Model.Proportions CC.Gen.MeasureSrc CC.Gen.StripeMeasureSrc
+       CC.Gen.PartMeasureSrc CC.Gen.Tables CC.Proofs.GenAgreeMeasTac CC.Proofs.GenAgreePopulation.
+Import Coq.Lists.List.ListNotations CC.Base.XQ.
+Local Close Scope Q_scope.
+Local Open Scope string_scope.
+Local Open Scope nat_scope.
+
+Theorem C17_gen_population_proportions :
+  (match src_PopulationProportions_blocks_00 with
+  | Some e => forall nr nc rsubs csubs rd cd blk cubem cubeflag flag,
+      holds_mat (menv_mat nr nc rsubs csubs rd cd blk cubem cubeflag flag) e DR DC
+        (pop_props_model rsubs csubs rd cd blk 0 0)
+  | None => True
+  end) /\
+  (match src_PopulationProportions_blocks_01 with
+  | Some e => forall nr nc rsubs csubs rd cd blk cubem cubeflag flag,
+      holds_mat (menv_mat nr nc rsubs csubs rd cd blk cubem cubeflag flag) e DR DCS
+        (pop_props_model rsubs csubs rd cd blk 0 1)
+  | None => True
+  end) /\
+  (match src_PopulationProportions_blocks_10 with
+  | Some e => forall nr nc rsubs csubs rd cd blk cubem cubeflag flag,
+      holds_mat (menv_mat nr nc rsubs csubs rd cd blk cubem cubeflag flag) e DRS DC
+        (pop_props_model rsubs csubs rd cd blk 1 0)
+  | None => True
+  end) /\
+  (match src_PopulationProportions_blocks_11 with
+  | Some e => forall nr nc rsubs csubs rd cd blk cubem cubeflag flag,
+      holds_mat (menv_mat nr nc rsubs csubs rd cd blk cubem cubeflag flag) e DRS DCS
+        (pop_props_model rsubs csubs rd cd blk 1 1)
+  | None => True
+  end).
+Proof. exact (conj gen_PopulationProportions_blocks_00 (conj gen_PopulationProportions_blocks_01 (conj gen_PopulationProportions_blocks_10 gen_PopulationProportions_blocks_11))). Qed.
+Print Assumptions C17_gen_population_proportions.
+
+Theorem C17_gen_population_std_err :
+  (match src_PopulationStandardError_blocks_00 with
+  | Some e => forall nr nc rsubs csubs rd cd blk cubem cubeflag flag,
+      holds_mat (menv_mat nr nc rsubs csubs rd cd blk cubem cubeflag flag) e DR DC
+        (mnth (pop_choice rd cd (blk "row_std_err" 0 0) (blk "column_std_err" 0 0)
+                          (blk "table_std_err" 0 0)))
+  | None => True
+  end) /\
+  (match src_PopulationStandardError_blocks_01 with
+  | Some e => forall nr nc rsubs csubs rd cd blk cubem cubeflag flag,
+      holds_mat (menv_mat nr nc rsubs csubs rd cd blk cubem cubeflag flag) e DR DCS
+        (mnth (pop_choice rd cd (blk "row_std_err" 0 1) (blk "column_std_err" 0 1)
+                          (blk "table_std_err" 0 1)))
+  | None => True
+  end) /\
+  (match src_PopulationStandardError_blocks_10 with
+  | Some e => forall nr nc rsubs csubs rd cd blk cubem cubeflag flag,
+      holds_mat (menv_mat nr nc rsubs csubs rd cd blk cubem cubeflag flag) e DRS DC
+        (mnth (pop_choice rd cd (blk "row_std_err" 1 0) (blk "column_std_err" 1 0)
+                          (blk "table_std_err" 1 0)))
+  | None => True
+  end) /\
+  (match src_PopulationStandardError_blocks_11 with
+  | Some e => forall nr nc rsubs csubs rd cd blk cubem cubeflag flag,
+      holds_mat (menv_mat nr nc rsubs csubs rd cd blk cubem cubeflag flag) e DRS DCS
+        (mnth (pop_choice rd cd (blk "row_std_err" 1 1) (blk "column_std_err" 1 1)
+                          (blk "table_std_err" 1 1)))
+  | None => True
+  end).
+Proof. exact (conj gen_PopulationStandardError_blocks_00 (conj gen_PopulationStandardError_blocks_01 (conj gen_PopulationStandardError_blocks_10 gen_PopulationStandardError_blocks_11))). Qed.
+Print Assumptions C17_gen_population_std_err.
+
+Theorem C17_gen_strand_population_proportions :
+  (match ssrc_PopulationProportions_base_values with
+  | Some e => forall n subs rd vblk,
+      holds_vec (senv_std n subs rd vblk no_cube) e DR
+        (fun i => if rd then Fin 1%Q else vnth (vblk "table_proportions" 0) i)
+  | None => True
+  end) /\
+  (match ssrc_PopulationProportions_subtotal_values with
+  | Some e => forall n subs rd vblk,
+      holds_vec (senv_std n subs rd vblk no_cube) e DRS
+        (fun k => if has_subs (nth k subs nosub) then NaN
+                  else if rd then Fin 1%Q else vnth (vblk "table_proportions" 1) k)
+  | None => True
+  end).
+Proof. exact (conj gen_stripe_PopulationProportions_base_values gen_stripe_PopulationProportions_subtotal_values). Qed.
+Print Assumptions C17_gen_strand_population_proportions.
+
+Theorem C17_gen_strand_population_stderrs :
+  (match ssrc_PopulationProportionStderrs_base_values with
+  | Some e => forall n subs rd vblk,
+      holds_vec (senv_std n subs rd vblk no_cube) e DR
+        (fun i => if rd then Fin 0%Q else vnth (vblk "table_proportion_stderrs" 0) i)
+  | None => True
+  end) /\
+  (match ssrc_PopulationProportionStderrs_subtotal_values with
+  | Some e => forall n subs rd vblk,
+      holds_vec (senv_std n subs rd vblk no_cube) e DRS
+        (fun i => if rd then Fin 0%Q else vnth (vblk "table_proportion_stderrs" 1) i)
+  | None => True
+  end).
+Proof. exact (conj gen_stripe_PopulationProportionStderrs_base_values gen_stripe_PopulationProportionStderrs_subtotal_values). Qed.
+Print Assumptions C17_gen_strand_population_stderrs.
+
+Theorem C17_gen_population_counts :
+  (match psrc_Slice_population_counts with
+  | Some e => forall nr nc z N f P,
+      holds_mat (penv_std nr nc (part_names z) (part_scalars N f) (part_mat "population_proportions" P)) e DR DC
+        (fun i j => pop_cell (mnth P i j) N f false)
+  | None => True
+  end) /\
+  (match psrc_Slice_population_counts_moe, tbl_Z_975 with
+  | Some e, Some z => forall nr nc N f S,
+      holds_mat (penv_std nr nc (part_names z) (part_scalars N f) (part_mat "population_std_err" S)) e DR DC
+        (fun i j => moe_cell (mnth S i j) N f)
+  | _, _ => True
+  end) /\
+  (match psrc_Strand_population_counts with
+  | Some e => forall n z N f P,
+      holds_vec (penv_std n 0 (part_names z) (part_scalars N f) (part_vec "population_proportions" P)) e DR
+        (fun i => pop_cell (vnth P i) N f false)
+  | None => True
+  end) /\
+  (match psrc_Strand_population_counts_moe, tbl_Z_975 with
+  | Some e, Some z => forall n N f S,
+      holds_vec (penv_std n 0 (part_names z) (part_scalars N f) (part_vec "population_proportion_stderrs" S)) e DR
+        (fun i => moe_cell (vnth S i) N f)
+  | _, _ => True
+  end).
+Proof. exact (conj gen_Slice_population_counts (conj gen_Slice_population_counts_moe (conj gen_Strand_population_counts gen_Strand_population_counts_moe))). Qed.
+Print Assumptions C17_gen_population_counts.
+
+(* non-vacuity: with categorical-date rows the translated population standard error is the row one *)
+Example C17_gen_example :
+  match src_PopulationStandardError_blocks_00 with
+  | Some e =>
+      let blk := fun (m : string) (_ _ : nat) =>
+        if String.eqb m "row_std_err" then [[Fin 1%Q]]
+        else if String.eqb m "column_std_err" then [[Fin 2%Q]] else [[Fin 3%Q]] in
+      match meval (menv_mat 1 1 [] [] true true blk (fun _ _ => []) (fun _ _ => false) (fun _ => false)) e with
+      | VMat DR DC f => f 0 0 =x= Fin 1%Q
+      | _ => False
+      end
+  | None => True
+  end.
+Proof. vm_compute. first [exact I | reflexivity]. Qed.
+
+End GenAgreeMeasures_C17.
